@@ -13,40 +13,56 @@ VARIABLES store,    \* variable -> ordered collection of entries (the Flat view 
           lastT,    \* variable -> timestamp of the last applied update (seconds)
           clock,    \* wall clock in seconds
           made,     \* updates produced so far: Seq of [for, payload, t, signer]
+          sb,       \* secure boot enforcement switched on (a firmware setting; the SecureBoot variable reports it)
           last      \* outcome of the last step (output only)
-vars == <<store, lastT, clock, made, last>>
+vars == <<store, lastT, clock, made, sb, last>>
 
 Authorised(v, k) == IF v \in {"PK", "KEK"} THEN k = "pkkey" ELSE k = "kekkey"
+(* platform modes (UEFI 32.3): without a platform key the platform is in setup mode - the SetupMode variable reads 1, secure   *)
+(* boot cannot be enforced, and the secure-boot variables accept updates without an authorised signer (the platform key itself *)
+(* must be self-signed); enrolling a platform key enters user mode, clearing it returns to setup mode.                          *)
+SetupMode == IF "PK" \in Vars THEN store["PK"] = <<>> ELSE FALSE
+AuthorisedNow(v, k) == IF SetupMode THEN (v = "PK" => k = "pkkey") ELSE Authorised(v, k)
 Without(s, p) == SubSeq(s, 1, p - 1) \o SubSeq(s, p + 1, Len(s))
 Has(s, e) == \E i \in 1..Len(s) : s[i] = e
 Pos(s, e) == CHOOSE i \in 1..Len(s) : s[i] = e
 Apply(op, e, s) == IF op = "append" THEN (IF Has(s, e) THEN s ELSE Append(s, e))
                    ELSE (IF Has(s, e) THEN Without(s, Pos(s, e)) ELSE s)
 
-Init == /\ store = [v \in Vars |-> <<>>] /\ lastT = [v \in Vars |-> 0] /\ clock = 1 /\ made = <<>> /\ last = [op |-> "init"]
-Tick == clock' = clock + 1 /\ last' = [op |-> "tick"] /\ UNCHANGED <<store, lastT, made>>
+Init == /\ store = [v \in Vars |-> <<>>] /\ lastT = [v \in Vars |-> 0] /\ clock = 1 /\ made = <<>> /\ sb = FALSE /\ last = [op |-> "init"]
+Tick == clock' = clock + 1 /\ last' = [op |-> "tick"] /\ UNCHANGED <<store, lastT, made, sb>>
 (* read-modify-sign: the library reads v, edits the decoded database, encodes it and signs the update *)
 Produce(v, op, e, k) ==
   /\ made' = Append(made, [for |-> v, payload |-> Apply(op, e, store[v]), t |-> clock, signer |-> k])
-  /\ last' = [op |-> "produce", v |-> v, edit |-> op, e |-> e, k |-> k] /\ UNCHANGED <<store, lastT, clock>>
-Accepts(u, target) == u.for = target /\ Authorised(target, u.signer) /\ u.t > lastT[target]
+  /\ last' = [op |-> "produce", v |-> v, edit |-> op, e |-> e, k |-> k] /\ UNCHANGED <<store, lastT, clock, sb>>
+Accepts(u, target) == u.for = target /\ AuthorisedNow(target, u.signer) /\ u.t > lastT[target]
 Submit(i, target) ==
   /\ i \in 1..Len(made)
   /\ LET u == made[i] IN
      IF Accepts(u, target)
      THEN store' = [store EXCEPT ![target] = u.payload] /\ lastT' = [lastT EXCEPT ![target] = u.t]
+          /\ sb' = (IF target = "PK" /\ u.payload = <<>> THEN FALSE ELSE sb)          \* clearing the platform key: back to setup mode, enforcement off
           /\ last' = [op |-> "submit", i |-> i, target |-> target, accepted |-> TRUE]
-     ELSE UNCHANGED <<store, lastT>> /\ last' = [op |-> "submit", i |-> i, target |-> target, accepted |-> FALSE]
+     ELSE UNCHANGED <<store, lastT, sb>> /\ last' = [op |-> "submit", i |-> i, target |-> target, accepted |-> FALSE]
   /\ UNCHANGED <<clock, made>>
-Read(v) == last' = [op |-> "read", v |-> v, db |-> store[v]] /\ UNCHANGED <<store, lastT, clock, made>>
+Read(v) == last' = [op |-> "read", v |-> v, db |-> store[v]] /\ UNCHANGED <<store, lastT, clock, made, sb>>
+(* the owner switches enforcement in the firmware set-up; refused while the platform is in setup mode *)
+ToggleSB(on) == /\ sb' = (IF on /\ SetupMode THEN sb ELSE on)
+                /\ last' = [op |-> "togglesb", on |-> on, accepted |-> ~(on /\ SetupMode)] /\ UNCHANGED <<store, lastT, clock, made>>
+(* what the SetupMode / SecureBoot variables report, read through the library's typed accessors *)
+ReadModes == last' = [op |-> "modes", setup |-> SetupMode, sb |-> sb] /\ UNCHANGED <<store, lastT, clock, made, sb>>
 Next == \/ Tick \/ (\E v \in Vars, op \in {"append", "remove"}, e \in Entries, k \in Keys : Produce(v, op, e, k))
         \/ (\E i \in 1..3, t \in Vars : Submit(i, t)) \/ (\E v \in Vars : Read(v))
+        \/ ("PK" \in Vars /\ ((\E on \in BOOLEAN : ToggleSB(on)) \/ ReadModes))
 Spec == Init /\ [][Next]_vars
 
 (* ---- system-level statements ---- *)
 (* an update never lands in a variable it was not signed for, and never without an authorised key *)
 OnlyBoundAuthorised == [][\A v \in Vars : store'[v] # store[v] =>
-                            \E i \in 1..Len(made) : made[i].for = v /\ Authorised(v, made[i].signer) /\ store'[v] = made[i].payload]_vars
+                            \E i \in 1..Len(made) : made[i].for = v /\ AuthorisedNow(v, made[i].signer) /\ store'[v] = made[i].payload]_vars
+(* platform modes: enforcement is never on in setup mode; setup mode is left only by enrolling a platform key signed with its own key *)
+SbOnlyInUserMode == sb => ~SetupMode
+SetupLeftOnlyByEnrolment == [][(SetupMode /\ ~SetupMode') => (last'.op = "submit" /\ last'.target = "PK" /\ last'.accepted /\ made[last'.i].signer = "pkkey")]_vars
 (* replay protection: timestamps stored with a variable only grow; an applied update cannot be applied again *)
 Monotone == [][\A v \in Vars : lastT'[v] >= lastT[v]]_vars
 NoReplay == [][\A v \in Vars : (last'.op = "submit" /\ last'.accepted /\ last'.target = v) => made[last'.i].t > lastT[v]]_vars
@@ -55,6 +71,6 @@ RmwKeepsOthers == \A i \in 1..Len(made) : \A j, k \in 1..Len(made[i].payload) : 
 (* HAZARD (expected to be reachable, reported as information): two honest, authorised updates of one variable *)
 (* produced within the same second carry the same timestamp, so firmware refuses the second.                  *)
 SameSecondHazardFree == ~(\E i, j \in 1..Len(made) : i < j /\ made[i].for = made[j].for /\ made[i].t = made[j].t
-                              /\ Authorised(made[i].for, made[i].signer) /\ Authorised(made[j].for, made[j].signer)
+                              /\ AuthorisedNow(made[i].for, made[i].signer) /\ AuthorisedNow(made[j].for, made[j].signer)
                               /\ lastT[made[i].for] = made[i].t)
 =============================================================================
